@@ -37,7 +37,7 @@ class Obligation(object):
 
     def __init__(self, name, fn, bounds='', mode='exact', max_paths=200000, max_seconds=900.0,
                  solver_timeout_ms=60000, expect_symbolic=True, logic=None, nonfinite='cut',
-                 max_violations=6):
+                 max_violations=6, purify_div=False):
         self.name = name
         self.fn = fn
         self.bounds = bounds
@@ -49,6 +49,7 @@ class Obligation(object):
         self.logic = logic
         self.nonfinite = nonfinite
         self.max_violations = max_violations
+        self.purify_div = purify_div
 
 
 _OBLIGATIONS = None
@@ -65,6 +66,7 @@ def _run_one(i):
                            logic=ob.logic, nonfinite=ob.nonfinite,
                            max_violations=ob.max_violations if not twin else 1)
         ex.mode = ob.mode
+        ex.purify_div = ob.purify_div
         ex.twin = twin
         if twin:
             orig = ex.require
